@@ -1,8 +1,9 @@
 (* Props/C20.v — generators and aggregating constructors build what they advertise.
    Only statements, `exact`, Print Assumptions, and concrete Examples (non-vacuity). *)
-From Coq Require Import List Arith ZArith Bool.
+From Coq Require Import List Arith ZArith Bool QArith Qcanon.
 From PV Require Import Base.Index Base.Sum Np.Array Model.Sparse Model.Repr Model.Harness Model.C20Gen Model.C20Harness Proofs.C20Proofs.
 Import ListNotations.
+Local Open Scope nat_scope.
 
 Section C20_dense.
 Context {V : Type} (v0 v1 : V).
@@ -41,8 +42,151 @@ Print Assumptions C20_from_function.
 Print Assumptions C20_from_function_same_shape.
 Print Assumptions C20_from_function_reject.
 
+
+(* ---------------------------------------------------------------- Kruskal tensor from a function *)
+Section C20_kruskal.
+Context {V : Type} (v0 v1 : V) (vadd vmul : V -> V -> V).
+Hypothesis vmul_1_l : forall x, vmul v1 x = x.
+
+(* ktensor.from_function: weights all one, factor n = the n-th output (I_n x R), hence the tensor it denotes is
+   sum_r prod_n out_n[i_n, r] — all shapes, all ranks *)
+Theorem C20_kfrom_function : forall (s : shape) (R : nat) (outs : list (list (list V))),
+  Forall2 (fun d A => length A = d /\ Forall (fun row => length row = R) A) s outs ->
+  let K := kfrom_function v1 R outs in
+  kshape K = s /\ kweights K = repeat v1 R /\ kfactors K = outs /\ krank K = R /\ wf_k K /\
+  (forall i, inb s i = true ->
+     den_k v0 v1 vadd vmul K i = sum_n v0 vadd R (fun r => kprod v0 v1 vmul outs i r)).
+Proof. exact (kfrom_function_ok v0 v1 vadd vmul vmul_1_l). Qed.
+End C20_kruskal.
+Print Assumptions C20_kfrom_function.
+
+(* ---------------------------------------------------------------- diagonal tensors *)
+Section C20_diag.
+Context {V : Type} (v0 : V) (vadd : V -> V -> V) (isz : V -> bool).
+Hypothesis isz_spec : forall v, isz v = true <-> v = v0.
+Hypothesis vadd_0_r : forall x, vadd x v0 = x.
+
+(* tendiag: shape = (N,)*N or max(N, dim) per requested mode; e_k at (k,...,k); zero elsewhere —
+   for element vectors longer or shorter than the requested shape *)
+Theorem C20_tendiag : forall (e : list V) (so : option shape),
+  let N := length e in let cs := diag_shape N so in let M := length cs in
+  1 <= M ->
+  dshape (tendiag v0 e so) = cs /\ wf_dense (tendiag v0 e so) /\
+  (forall k, k < N -> den_dense v0 (tendiag v0 e so) (repeat k M) = nth k e v0) /\
+  (forall i, (forall k, k < N -> i <> repeat k M) -> den_dense v0 (tendiag v0 e so) i = v0).
+Proof. exact (tendiag_ok v0). Qed.
+
+(* sptendiag: the same array as a well-formed sparse tensor; zero elements get no entry *)
+Theorem C20_sptendiag : forall (e : list V) (so : option shape),
+  let N := length e in let cs := diag_shape N so in let M := length cs in
+  1 <= M ->
+  sshape (sptendiag v0 vadd isz e so) = cs /\ wf_sp isz (sptendiag v0 vadd isz e so) /\
+  (forall k, k < N -> den_sp v0 (sptendiag v0 vadd isz e so) (repeat k M) = nth k e v0) /\
+  (forall i, (forall k, k < N -> i <> repeat k M) -> den_sp v0 (sptendiag v0 vadd isz e so) i = v0) /\
+  (forall k, k < N -> (In (repeat k M) (ssubs (sptendiag v0 vadd isz e so)) <-> isz (nth k e v0) = false)).
+Proof. exact (sptendiag_ok v0 vadd isz isz_spec vadd_0_r). Qed.
+
+(* ---------------------------------------------------------------- aggregating constructor *)
+(* for EVERY subscript list (any multiplicities, any order), every value list and every reducer f:
+   the result denotes  i |-> f(values whose subscript is i, in input order)  on the subscripts present, zero elsewhere;
+   a subscript is stored iff it is present and its reduced value is non-zero; the result is well-formed *)
+Theorem C20_aggregator : forall (s : shape) (subs : list idx) (vals : list V) (f : list V -> V),
+  (forall i, den_sp v0 (from_aggregator isz s subs vals f) i =
+             if existsb (idx_eqb i) subs then f (vals_at i subs vals) else v0) /\
+  (forall i, In i (ssubs (from_aggregator isz s subs vals f)) <->
+             In i subs /\ isz (f (vals_at i subs vals)) = false) /\
+  sshape (from_aggregator isz s subs vals f) = s /\
+  (Forall (fun i => inb s i = true) subs -> wf_sp isz (from_aggregator isz s subs vals f)).
+Proof.
+  exact (fun s subs vals f => conj (agg_den v0 isz isz_spec s subs vals f)
+          (conj (agg_entry_iff isz s subs vals f) (conj eq_refl (agg_wf isz s subs vals f)))).
+Qed.
+End C20_diag.
+Print Assumptions C20_tendiag.
+Print Assumptions C20_sptendiag.
+Print Assumptions C20_aggregator.
+
+(* ---------------------------------------------------------------- random sparse generators, draws as inputs *)
+Section C20_sprand.
+Context {V : Type} (isz : V -> bool).
+
+(* whatever the draw matrices (entries m with u = m/2^53 in [0,1)): well-formed, requested shape, values = the
+   supplied function's output, at most the requested number of nonzeros *)
+Theorem C20_sprand_post : forall (nz : nat) (s : shape) (draws : list (list (list Z))) (vals : list V),
+  Forall (fun d => 0 < d) s -> Forall (valid_draw s) draws ->
+  length vals = length (sprand_subs nz s draws) -> Forall (fun v => isz v = false) vals ->
+  wf_sp isz (sprand nz s draws vals) /\ sshape (sprand nz s draws vals) = s /\
+  svals (sprand nz s draws vals) = vals /\ nnz (sprand nz s draws vals) <= nz.
+Proof. exact (sprand_wf isz). Qed.
+End C20_sprand.
+
+(* nnz = min(request, distinct rows of the final draw), and nnz = request EXACTLY WHEN the request is zero or one of
+   the ten draws has pairwise distinct scaled rows (each draw REPLACES the previous one) *)
+Theorem C20_sprand_count : forall (nz : nat) (s : shape) (draws : list (list (list Z))),
+  Forall (fun d => length d = nz) draws -> 10 <= length draws ->
+  length (sprand_subs nz s draws) = length (fst (redraw 10 nz s [] draws)) /\
+  length (sprand_subs nz s draws) = Nat.min nz (length (fst (redraw 10 nz s [] draws))) /\
+  (length (sprand_subs nz s draws) = nz <-> nz = 0 \/ Exists (distinct_rows s) (firstn 10 draws)).
+Proof. exact sprand_count. Qed.
+
+(* seeded reproducibility: the stored subscripts and the number of draws consumed are FUNCTIONS of the captured
+   stream (sprand_subs, sprand_consumed); when the first draw is already distinct, exactly one draw is used and the
+   stored subscripts are its rows in ascending order *)
+Theorem C20_seeded_first_draw : forall (nz : nat) (s : shape) (d : list (list Z)) (ds : list (list (list Z))),
+  0 < nz -> length d = nz -> distinct_rows s d ->
+  sprand_subs nz s (d :: ds) = cand s d /\ sprand_consumed nz s (d :: ds) = 1.
+Proof. exact sprand_first_draw. Qed.
+
+Print Assumptions C20_sprand_post.
+Print Assumptions C20_sprand_count.
+Print Assumptions C20_seeded_first_draw.
+
+(* ---------------------------------------------------------------- teneye *)
+(* order 2: the entry numerators are 2!*delta — the identity matrix *)
+Theorem C20_teneye_order2 : forall a b : nat, teneye_count [a; b] = if Nat.eqb a b then 2 else 0.
+Proof. exact teneye_count_2. Qed.
+Print Assumptions C20_teneye_order2.
+
+(* the identity action for every even order: STATED, not proved (correspondence-only: checked on pyttb's output for
+   (order,size) in {2}x{1..4}, {4}x{1..3}, {6}x{2} with rational x) *)
+Definition C20_teneye_identity_stmt : Prop :=
+  forall (m n : nat) (x : list Qc), Nat.even m = true -> 2 <= m -> length x = n ->
+  forall a, a < n ->
+  ttsv1 (tabulate (repeat n m) (teneye_entry m)) m n x a = (qpow (qdot x) (m / 2 - 1) * nth a x q0)%Qc.
+
+(* ---------------------------------------------------------------- non-vacuity: concrete, non-symmetric instances *)
 Example C20_example_from_function :
   zfrom_function [2; 3] (mkDense [6] [1; 2; 3; 4; 5; 6]%Z) = Some (mkDense [2; 3] [1; 2; 3; 4; 5; 6]%Z)
   /\ zden (mkDense [2; 3] [1; 2; 3; 4; 5; 6]%Z) [1; 2] = 6%Z /\ zden (mkDense [2; 3] [1; 2; 3; 4; 5; 6]%Z) [0; 1] = 3%Z
   /\ ztenones [2; 1; 2] = Some (mkDense [2; 1; 2] [1; 1; 1; 1]%Z).
 Proof. repeat split; reflexivity. Qed.
+
+Example C20_example_tendiag :
+  ztendiag [1; 2; 3]%Z (Some [2; 4]) = mkDense [3; 4] [1; 0; 0; 0; 2; 0; 0; 0; 3; 0; 0; 0]%Z
+  /\ ztendiag [1; 2]%Z None = mkDense [2; 2] [1; 0; 0; 2]%Z
+  /\ zsptendiag [1; 0; 3]%Z (Some [3; 3]) = mkSp [3; 3] [[0; 0]; [2; 2]] [1; 3]%Z.
+Proof. repeat split; reflexivity. Qed.
+
+Example C20_example_aggregator :
+  let subs := [[1; 2]; [0; 1]; [1; 2]; [0; 0]; [1; 2]; [0; 1]] in
+  let vals := [3; 4; 5; 7; -8; -4]%Z in
+  zaggregator (Some [2; 3]) 2 subs vals RSum = Some (mkSp [2; 3] [[0; 0]] [7]%Z)
+  /\ zaggregator (Some [2; 3]) 2 subs vals RMax = Some (mkSp [2; 3] [[0; 0]; [0; 1]; [1; 2]] [7; 4; 5]%Z)
+  /\ zaggregator (Some [2; 3]) 2 subs vals RFirstMinusRest = Some (mkSp [2; 3] [[0; 0]; [0; 1]; [1; 2]] [7; 8; 6]%Z)
+  /\ zaggregator None 2 subs vals RLen = Some (mkSp [2; 3] [[0; 0]; [0; 1]; [1; 2]] [1; 2; 3]%Z)
+  /\ zaggregator (Some [2; 2]) 2 subs vals RSum = None.
+Proof. repeat split; reflexivity. Qed.
+
+(* first draw has a repeated row (both rows scale to [0;0]): a second draw is consumed and REPLACES it *)
+Example C20_example_sprand :
+  let h := (2 ^ 52)%Z in
+  let d1 := [[0; h]; [1; h + 5]]%Z in let d2 := [[h; h]; [0; 7]]%Z in
+  cand [2; 3] d1 = [[0; 1]] /\
+  sprand_subs 2 [2; 3] [d1; d2] = [[0; 0]; [1; 1]] /\ sprand_consumed 2 [2; 3] [d1; d2] = 2 /\
+  sprand_subs 2 [2; 3] [d2; d1] = [[0; 0]; [1; 1]] /\ sprand_consumed 2 [2; 3] [d2; d1] = 1 /\
+  norm_request 6 1 2 = Some 3 /\ norm_request 6 5 1 = Some 5 /\ norm_request 6 6 1 = None /\
+  sptenrand_count_impl 100 1 200 = Some 50 /\ sptenrand_count_spec 100 1 200 = 0.
+Proof. vm_compute. repeat split; reflexivity. Qed.
+
+Example C20_example_teneye : map teneye_count [[0; 0; 0; 0]; [0; 0; 1; 1]; [0; 1; 0; 1]; [0; 0; 0; 1]] = [24; 8; 8; 0].
+Proof. vm_compute. reflexivity. Qed.
